@@ -522,6 +522,59 @@ func c19FailingOnly(c *Ctx, done chan<- struct{}) {
 	}
 }
 
+// c19ResourceGrowth: "keeps serving" restated as bounded resources - for each class of request that is answered
+// without any state being asked for, four equal batches are sent and the server's resident memory is read after each.
+// A class whose every batch adds at least growthKB (and whose control-relative growth is clear) holds something per
+// request for good (a goroutine, a buffer, a cache entry): it will stop serving at some request count.
+func c19ResourceGrowth(c *Ctx, srv *server) {
+	r := c.R
+	type class struct {
+		name, method, path string
+		body               []byte
+	}
+	classes := []class{
+		{"home", "GET", "/", nil},
+		{"docs-index", "GET", "/docs/index.html", nil},
+		{"docs-static-asset", "GET", "/docs/swagger-ui.css", nil},
+		{"docs-unknown-file", "GET", "/docs/no-such-file.png", nil},
+		{"docs-json", "GET", "/docs/doc.json", nil},
+		{"unknown-path", "GET", "/no/such/path", nil},
+		{"wrong-method", "GET", "/totp/generate", nil},
+		{"broken-json", "POST", "/hotp/generate", []byte("{\"secret\":")},
+		{"suite-list", "GET", "/ocra/suites", nil},
+		{"hotp-generate", "POST", "/hotp/generate", []byte("{\"secret\":\"GEZDGNBVGY3TQOJQGEZDGNBVGY3TQOJQ\",\"counter\":1}")},
+	}
+	batch := c.N(2500, 12000)
+	const growthKB = 4096
+	for _, cl := range classes {
+		var rss [5]int64
+		ok := true
+		rss[0], ok = srv.rssKB()
+		if !ok {
+			r.Inconclusive("resource growth: /proc/<pid>/status of the server not readable")
+			return
+		}
+		for b := 1; b <= 4; b++ {
+			monParallel(batch, 16, func(i int) { srv.do(cl.method, cl.path, cl.body, false, 30*time.Second) })
+			rss[b], _ = srv.rssKB()
+		}
+		r.Eval(1)
+		r.Count("resource_growth_requests", 4*batch)
+		r.Nontrivial("growth|" + cl.name)
+		steady := true
+		for b := 1; b <= 4; b++ {
+			if rss[b]-rss[b-1] < growthKB {
+				steady = false
+			}
+		}
+		r.Extra["resident_KiB_after_batches:"+cl.name] = rss
+		if steady {
+			r.Violate("C19|"+cl.name+"|resources-grow-per-request|", fmt.Sprintf("the server's resident memory grows by at least %d KiB with every batch of %d identical %s requests (something is kept per request for good)", growthKB, batch, cl.name),
+				"none", map[string]any{"class": cl.name, "method": cl.method, "path": cl.path, "batch": batch}, "no steady growth", fmt.Sprintf("resident KiB before and after four batches: %v", rss))
+		}
+	}
+}
+
 func runC19(c *Ctx) {
 	r := c.R
 	soakDone := make(chan struct{})
@@ -593,6 +646,7 @@ func runC19(c *Ctx) {
 		}
 		r.Count("respelled_requests", n)
 	}
+	c19ResourceGrowth(c, srv)
 	c19Soak(c, srv, seq, probe)
 	srv = c19SkewProbes(c, srv)
 	if srv == nil {
